@@ -13,6 +13,7 @@ type handler func(e *Engine, fr *Frame, args []Value) (Value, bool)
 
 var vpPrims map[string]handler
 var intrinsics map[string]handler
+var intrinsicsExtra map[string]handler
 
 func sanitize(s string) string {
 	var sb strings.Builder
